@@ -1,5 +1,10 @@
 From Coq Require Import ExtrOcamlBasic.
 From Coq Require Import ZArith.
-From MT Require Import Sync.SyncModel Machine.MachineModel Compose.ComposeModel.
+From MT Require Import Sync.SyncModel Machine.MachineModel Compose.GenericModel Compose.Instances Compose.ComposeModel.
+From MT Require Barrier.BarrierModel JoinCounter.JcModel Uncond.UncondModel.
 Extraction Language OCaml.
-Separate Extraction BinNums.N BinInt.Z.add BinInt.Z.mul BinInt.Z.opp BinInt.Z.div_eucl cinit cstep sy ma label lval ncbs mword mq cqs festat thr cur hand dq stat places parked.
+Separate Extraction BinNums.N BinInt.Z.add BinInt.Z.mul BinInt.Z.opp BinInt.Z.div_eucl
+  gp gm SyncI.pstep SyncI.pinit BarrierI.pstep BarrierI.pinit JcI.pstep JcI.pinit UncondI.pstep UncondI.pinit
+  SyncModel.label SyncModel.lval SyncModel.ncbs SyncModel.mword SyncModel.mq SyncModel.cqs SyncModel.festat SyncModel.thr
+  BarrierModel.label JcModel.label JcModel.init_state UncondModel.label
+  cur hand dq stat places parked.
